@@ -329,7 +329,8 @@ void build_world(World& W, Choices& c, Report& r)
       if (is_prop("C16") && c.pick(3) != 0) mask = (1u << nsinks) - 1; // usually all sinks: they must be able to disagree
       std::vector<std::shared_ptr<quill::Sink>> sv;
       for (unsigned b = 0; b < nsinks; ++b) if (mask & (1u << b)) { L.sinks.push_back(static_cast<int>(b)); sv.push_back(W.sinks[b].user_ref); }
-      char const* pat = is_prop("C16") ? "%(log_level)|%(log_level_short_code)|%(message)" : "%(message)";
+      if (!is_prop("C16")) L.pat = static_cast<int>(c.pick(3));
+      char const* pat = is_prop("C16") ? "%(log_level)|%(log_level_short_code)|%(message)" : kLoggerPatterns[L.pat];
       L.ptr = SFrontend::create_or_get_logger(L.name, std::move(sv),
                                               quill::PatternFormatterOptions{pat, "%H:%M:%S.%Qns", quill::Timezone::GmtTime, false},
                                               quill::ClockSourceType::System);
@@ -347,7 +348,7 @@ void build_world(World& W, Choices& c, Report& r)
       << " tbuf=" << bo.transit_event_buffer_initial_capacity << " soft=" << bo.transit_events_soft_limit
       << " hard=" << bo.transit_events_hard_limit << " grace_us=" << bo.log_timestamp_ordering_grace_period.count()
       << " flush_ms=" << bo.sink_min_flush_interval.count() << " sinks=" << W.sinks.size() << " loggers=";
-  for (auto const& L : W.loggers) { cfg << "["; for (int s : L.sinks) cfg << s; cfg << "]"; if (is_prop("C16")) cfg << "@" << kLevelCodes[L.level]; }
+  for (auto const& L : W.loggers) { cfg << "["; for (int s : L.sinks) cfg << s; cfg << "]"; if (is_prop("C16")) cfg << "@" << kLevelCodes[L.level]; else cfg << "p" << L.pat; }
   if (is_prop("C16"))
   {
     cfg << " sinkfilters=";
